@@ -12,7 +12,9 @@ import (
 	"fmt"
 	"hash/fnv"
 	"os"
+	"runtime/debug"
 	"sort"
+	"strings"
 	"sync"
 	"time"
 
@@ -229,6 +231,44 @@ func writeFileSync(path string, b []byte) {
 	f.Close()
 }
 
+// panicOrigin returns the first frame below the panic call that is not the runtime's, as
+// "function file:line", from a debug.Stack() dump taken inside the recovering deferred function.
+func panicOrigin(stack string) string {
+	lines := strings.Split(stack, "\n")
+	for i := 0; i+1 < len(lines); i++ {
+		if !strings.HasPrefix(lines[i], "panic(") {
+			continue
+		}
+		for j := i + 2; j+1 < len(lines); j += 2 {
+			if strings.HasPrefix(lines[j], "runtime.") {
+				continue
+			}
+			return lines[j] + " " + strings.TrimSpace(lines[j+1])
+		}
+	}
+	return ""
+}
+
+// runRecovering runs the executor; a panic that originates in the library under test while the
+// executor's own goroutine is inside one of its exported calls is a verdict (the call neither returned
+// nor failed cleanly), any other panic is a harness bug and is re-raised.
+func (p *Prop) runRecovering(sc any, c *Case) (v *Violation) {
+	defer func() {
+		r := recover()
+		if r == nil {
+			return
+		}
+		origin := panicOrigin(string(debug.Stack()))
+		if strings.Contains(origin, "/repo/") || strings.Contains(origin, "github.com/anacrolix/dht/v2") {
+			c.Inconclusive = ""
+			v = Violatef(p.ID[:3]+":api-call-panicked", "an exported call made by the check panicked inside the library: %v (raised at %s)", r, origin)
+			return
+		}
+		panic(r)
+	}()
+	return p.run(sc, c)
+}
+
 // RunCase executes one scenario with journal + accounting. It returns the violation (nil if the
 // property held or the failure is a listed open finding).
 func (p *Prop) RunCase(sc any) *Violation {
@@ -241,7 +281,7 @@ func (p *Prop) RunCase(sc any) *Violation {
 		writeFileSync(jdir+"/current.json", mustJSON(map[string]any{"sub": p.ID, "scenario": json.RawMessage(b)}))
 	}
 	c := &Case{}
-	v := p.run(sc, c)
+	v := p.runRecovering(sc, c)
 	cur.mu.Lock()
 	defer cur.mu.Unlock()
 	f := &cur.frag
